@@ -209,3 +209,78 @@ func minInt(a, b int) int {
 // BlockBound is the worst-case compressed size the format guarantees for n bytes,
 // as documented for LZ4_compressBound.
 func BlockBound(n int) int { return n + n/255 + 16 }
+
+// WalkBlockAgainst checks a block sequence by sequence against the source it is supposed to encode, without building the
+// output (sources of gigabytes): literals must equal the source at the current position, every match must have an offset
+// within the output so far and reproduce the source there. It returns "" when the block encodes exactly src.
+func WalkBlockAgainst(block, src []byte) string {
+	pos, i := int64(0), 0
+	n := int64(len(src))
+	readLen := func(v int64) (int64, bool) {
+		if v == 15 {
+			for {
+				if i >= len(block) {
+					return 0, false
+				}
+				b := block[i]
+				i++
+				v += int64(b)
+				if b != 255 {
+					break
+				}
+			}
+		}
+		return v, true
+	}
+	for {
+		if i >= len(block) {
+			return fmt.Sprintf("block ends without a final literals-only sequence (at source position %d)", pos)
+		}
+		tok := block[i]
+		i++
+		l, ok := readLen(int64(tok >> 4))
+		if !ok || int64(i)+l > int64(len(block)) {
+			return fmt.Sprintf("truncated literal run at source position %d", pos)
+		}
+		if pos+l > n || string(block[i:i+int(l)]) != string(src[pos:pos+l]) {
+			return fmt.Sprintf("literals at source position %d (length %d) differ from the source", pos, l)
+		}
+		i += int(l)
+		pos += l
+		if i == len(block) {
+			break
+		}
+		if i+2 > len(block) {
+			return fmt.Sprintf("truncated offset at source position %d", pos)
+		}
+		off := int64(block[i]) | int64(block[i+1])<<8
+		i += 2
+		m, ok := readLen(int64(tok & 15))
+		if !ok {
+			return fmt.Sprintf("truncated match length at source position %d", pos)
+		}
+		m += 4
+		if off == 0 || off > pos {
+			return fmt.Sprintf("match at source position %d has offset %d", pos, off)
+		}
+		if pos+m > n {
+			return fmt.Sprintf("match at source position %d (length %d) runs past the source (%d)", pos, m, n)
+		}
+		// compare in pieces (the ranges overlap when off < m; equality of src[pos:pos+m] with src[pos-off:pos-off+m] is what a decoder reproduces)
+		for done := int64(0); done < m; {
+			k := m - done
+			if k > 1<<24 {
+				k = 1 << 24
+			}
+			if string(src[pos+done:pos+done+k]) != string(src[pos-off+done:pos-off+done+k]) {
+				return fmt.Sprintf("match at source position %d (offset %d, length %d) does not reproduce the source", pos, off, m)
+			}
+			done += k
+		}
+		pos += m
+	}
+	if pos != n {
+		return fmt.Sprintf("block encodes %d bytes, the source has %d", pos, n)
+	}
+	return ""
+}
